@@ -40,7 +40,7 @@ class Query:
         self.unwind = unwind
         self.backend = backend
         self.paths = paths
-        self.cap_s = cap_s
+        self.cap_s = int(os.environ.get("VERIF_CAP", cap_s))
         self.mem_gb = mem_gb
         self.ll2c_cap = ll2c_cap
         self.memcap = memcap
@@ -483,7 +483,7 @@ def run_query(q, wd, bcdir, tier, seed, known):
 
 
 def build_prelude(bcdir):
-    for f in ("cxxrt", "cxxrt_string", "cxxrt_rbtree"):
+    for f in ("cxxrt", "cxxrt_string", "cxxrt_rbtree", "cxxrt_nostring"):
         rc, o, e, to, dt, _ = sh(["clang++-14", "-std=gnu++20", "-O1", "-fno-exceptions", "-flto", "-fvisibility=hidden", "-w", "-c", "-emit-llvm",
                                   os.path.join(VERIF, "tools", f + ".cpp"), "-o", os.path.join(bcdir, f + ".bc")])
         if rc != 0:
